@@ -1,5 +1,6 @@
 (* Prop_C11.v — C11: a panic in user code never leaks a lock or a key (fault-free worlds, every shape). *)
-From HL Require Import Base Model Shape Algo Api OpsLemmas Lemmas ShapeLemmas ApiLemmas QuietLemmas Check Monitors Pf_Calls Pf_Hist Pf_Hist11.
+From HL Require Import Base Model Shape Algo Api OpsLemmas Lemmas ShapeLemmas ApiLemmas QuietLemmas Check Monitors Conc Pf_Calls Pf_Hist Pf_Hist11.
+From HL Require WpMain.
 
 (* panic inside a scoped closure: propagates, every hold released (table as before the call), the key
    dropped if it was moved in and untouched if it was only lent, other threads' keys untouched *)
@@ -61,7 +62,18 @@ Example C11_every_history_nonvacuous :
     [RB true; ROk; RPanicked; RB true; RPanicked; RPanicked; RB true; RWouldBlock; RPoisoned; ROk; RPanicked; RB true; RPanicked].
 Proof. vm_compute. repeat split. Qed.
 
+
+(* interleaved model, every schedule, programs that panic inside closures and with live guards included: when every
+   thread has finished, every lock is free *)
+Theorem C11_every_schedule_all_released :
+  forall b sched l, WpMain.wfB b = true ->
+  let sc := bs_sc b in
+  let s := fst (run_sched (bs_wp b) (sc_env sc) (sc_nlocks sc) (binit b) sched) in
+  all_over s = true -> l < sc_nlocks sc -> w_raw (b_w s) l = raw_free.
+Proof. exact WpMain.every_schedule_all_released. Qed.
+
 Print Assumptions C11_closure_panic.
 Print Assumptions C11_guard_panic.
 Print Assumptions C11_catch_reraises.
 Print Assumptions C11_every_history.
+Print Assumptions C11_every_schedule_all_released.
